@@ -13,6 +13,7 @@ which process runs which task: `schedMap`), and a worker is a function of the mo
 (`Worker.run`), i.e. the integrator is deterministic.
 -/
 import MxlVerif.Lemmas.C09
+import MxlVerif.Lemmas.C09Par
 namespace Mxl.C09
 
 /-- the result of a whole scan as the specification sees it: every row run independently on the
@@ -141,6 +142,100 @@ theorem C09_aligned_steady_state {β : Type} (rows : List (Label × Row)) (res :
     refine ⟨res[i], by simp [hlt], ?_⟩
     rw [List.getElem?_zip_eq_some]
     simp [hi, hlt]
+
+
+/-! ### `parallelise` itself: cache look-up, pool with timeout, iteration order, sequential fallback -/
+
+/-- ANY SCHEDULE.  When no task times out, pool mode — for every number of processes and every assignment of tasks
+    to processes — returns exactly what sequential mode returns: the same list in the same order under the same keys,
+    or the same exception (a `ValueError` for repeated keys with a cache; else the first raising input's).  And both
+    are the specification: input by input, the stored result if the cache directory had one, else `fn`'s. -/
+theorem C09_parallelise_any_schedule {α β : Type} (fn : α → Except Err β) (inputs : List (Label × α))
+    (cache : Option (Store β)) (s : Sched) (hn : 0 < s.n) (hT : s.timedOut = []) :
+    (parallelise fn inputs cache true s).1 = (parallelise fn inputs cache false s).1 ∧
+    ((cache.isSome = false ∨ distinctKeys (inputs.map (·.1)) = true) →
+      (parallelise fn inputs cache true s).1 = mapE (specRow fn cache) inputs) := by
+  unfold parallelise
+  by_cases hg : (cache.isSome && !distinctKeys (inputs.map (·.1))) = true
+  · simp only [hg, if_true]
+    refine ⟨trivial, ?_⟩
+    intro h
+    rcases h with h | h
+    · simp [h] at hg
+    · simp [h] at hg
+  · simp only [hg, Bool.false_eq_true, if_false, if_true]
+    have hp : drain ((poolOutcomes s fn cache inputs).map (·.1)) = mapE (specRow fn cache) inputs := by
+      rw [pool_spec s hn fn cache inputs, hT, keepFrom_nil]
+    have hs : (seqMap fn cache inputs).1 = mapE (specRow fn cache) inputs := by
+      cases cache with
+      | none => exact seqMap_spec_nocache fn inputs
+      | some st =>
+        have hd : distinctKeys (inputs.map (·.1)) = true := by simpa using hg
+        exact seqMap_spec fn (some st) inputs (some st) hd (fun _ _ => rfl)
+    exact ⟨by rw [hp, hs], fun _ => hp⟩
+
+/-- ROW ALIGNMENT of what `parallelise` returns (either mode, any schedule, nothing timed out): as many results as
+    inputs, the i-th result under the i-th input's key, and it is that input's own result -/
+theorem C09_parallelise_row_aligned {α β : Type} (fn : α → Except Err β) (inputs : List (Label × α))
+    (cache : Option (Store β)) (par : Bool) (s : Sched) (hn : 0 < s.n) (hT : s.timedOut = [])
+    (res : List (Label × β)) (h : (parallelise fn inputs cache par s).1 = .ok res) :
+    res.map (·.1) = inputs.map (·.1) ∧
+    ∀ (i : Nat) (kv : Label × α), inputs[i]? = some kv → ∃ r, res[i]? = some r ∧ specRow fn cache kv = .ok r := by
+  obtain ⟨h1, h2⟩ := C09_parallelise_any_schedule fn inputs cache s hn hT
+  have hpar : (parallelise fn inputs cache true s).1 = .ok res := by
+    cases par with
+    | true => exact h
+    | false => rw [h1]; exact h
+  have hg : cache.isSome = false ∨ distinctKeys (inputs.map (·.1)) = true := by
+    by_cases hg : (cache.isSome && !distinctKeys (inputs.map (·.1))) = true
+    · unfold parallelise at hpar
+      simp [hg] at hpar
+    · cases hc : cache.isSome with
+      | false => exact Or.inl rfl
+      | true => simp [hc] at hg; exact Or.inr hg
+  rw [h2 hg] at hpar
+  exact ⟨mapE_labels _ (specRow_label fn cache) inputs res hpar, (mapE_getElem _ inputs res hpar).2⟩
+
+/-- TIMEOUT: a task that exceeds `timeout` is DROPPED from the returned list — no placeholder.  What comes back is
+    the specification over the remaining inputs, which are a sub-sequence of the inputs (order and keys kept). -/
+theorem C09_parallelise_timeout_drops_rows {α β : Type} (fn : α → Except Err β) (inputs : List (Label × α))
+    (s : Sched) (hn : 0 < s.n) :
+    (parallelise fn inputs none true s).1 = mapE (specRow fn none) (keepFrom s.timedOut 0 inputs) ∧
+    (keepFrom s.timedOut 0 inputs).Sublist inputs := by
+  refine ⟨?_, keepFrom_sublist _ _ _⟩
+  unfold parallelise
+  simp only [Option.isSome_none, Bool.false_and, Bool.false_eq_true, if_false, if_true]
+  exact pool_spec s hn fn none inputs
+
+/-- … which the positional join of `SteadyStateScan` cannot absorb: fewer results than table rows is an error.
+    (The scan drivers never pass a `timeout` — `Generated/C09Facts.lean`, `C09_drivers_pass_no_timeout`.) -/
+theorem C09_dropped_row_breaks_positional_join {β : Type} (rows : List (Label × Row)) (res : List (Label × β))
+    (h : res.length < rows.length) : ssContainer rows res = .error (.valueError "Length mismatch") := by
+  unfold ssContainer
+  have : (rows.length == res.length) = false := by simp; omega
+  simp [this]
+
+/-- CACHE: a directory whose entries are what `fn` itself yields for the inputs filed under those keys (it was
+    filled by an earlier run of the same scan) changes nothing — the call returns what it returns without a cache. -/
+theorem C09_cache_coherent {α β : Type} (fn : α → Except Err β) (inputs : List (Label × α)) (cache : Option (Store β))
+    (hco : ∀ kv r, kv ∈ inputs → cache.bind (·.lookup kv.1) = some r → fn kv.2 = .ok r) :
+    mapE (specRow fn cache) inputs = mapE (specRow fn none) inputs := by
+  apply mapE_congr
+  intro kv hkv
+  unfold specRow
+  cases hl : cache.bind (·.lookup kv.1) with
+  | none => rfl
+  | some r => simp only [Option.bind]; rw [hco kv r hkv hl]
+
+/-- … and the hypothesis is needed: the directory is keyed by the ROW LABEL alone, so a directory filled by a
+    different scan (other values under the same labels — the default labels are 0, 1, 2, … for every table) is
+    served as this scan's result, and `fn` is never called (it may even be a function that always raises). -/
+theorem C09_cache_keyed_by_label_only :
+    (parallelise (fun (_ : Nat) => (Except.error (.other "never called") : Except Err Nat)) [(0, 5), (1, 6)]
+        (some [(0, 99), (1, 98)]) false {}).1.toOption = some [(0, 99), (1, 98)] ∧
+    (parallelise (fun (_ : Nat) => (Except.error (.other "never called") : Except Err Nat)) [(0, 5), (1, 6)]
+        (some [(0, 99), (1, 98)]) true { assign := [1, 0], n := 2 }).1.toOption = some [(0, 99), (1, 98)] := by
+  constructor <;> decide
 
 /-! ### why the per-row copy is needed (the code before the fix) -/
 
